@@ -103,8 +103,8 @@ pub struct Plan {
 }
 
 /// One entropy fault: in channel `chan`, payment `pay` (-1 establish, 9999 close), operation
-/// "new" | "start" | "close", the draws `at .. at+width` return zeros ("zeros") or bytes that
-/// reduce to the close tag ("closetag").
+/// "new" | "start" | "close", the draws `at .. at+width` return zeros ("zeros"), bytes that
+/// reduce to the close tag ("closetag"), or what the previous draw returned ("repeat").
 #[derive(Serialize, Deserialize, Clone, Debug, PartialEq)]
 pub struct EntropyPlan {
     pub chan: usize,
@@ -432,7 +432,9 @@ impl<'a> World<'a> {
         for e in &self.plan.entropy {
             if e.chan == chan && e.pay == pay && e.op == op {
                 for i in e.at..e.at + e.width {
-                    let f = if e.kind == "closetag" {
+                    let f = if e.kind == "repeat" {
+                        EntropyFault::RepeatPrevious
+                    } else if e.kind == "closetag" {
                         let mut b = refc::scb(&refc::close_tag()).to_vec();
                         b.extend_from_slice(&[0u8; 32]);
                         EntropyFault::Bytes(b)
